@@ -130,6 +130,13 @@ class Bounds:
         if r:
             lo, hi = max(lo, r[0]), min(hi, r[1])
         k = a[0]
+        if k == "loopvar":
+            # the engine's placeholder for "the value of this local in some iteration": it has the local's type
+            f0 = self.W.prog.fns.get(a[1])
+            if f0 is not None and isinstance(a[2], int) and a[2] < len(f0.locals):
+                r0 = ty_range(f0.locals[a[2]]["ty"].strip())
+                if r0:
+                    lo, hi = max(lo, r0[0]), min(hi, r0[1])
         lr = getattr(self, "local_ranges", None)
         if lr:
             # all-time range of a local established by a loop-bound lemma (nopanic.halving_loops): applies to the engine's placeholder for
